@@ -1,5 +1,6 @@
 """C14 - array arithmetic follows strict linear-algebra shape rules and values."""
 import itertools
+import math
 
 import numpy as np
 
@@ -265,9 +266,9 @@ def h_negpow(E, which, expo, enabled):
     return 'value'
 
 
-FUNCTION_SCALARS = ['v^0.5', 'A^0.5', 'A^(1/2)', 'v^(2^-1)', 'A^(3-2.5)', '[[1,2,3],[4,5,6]]^0.5', 'A^1.5', 'A^0.25', 'A^-0.5', 'v^(1/2)', '(A*A)^0.5', 'A^(0.5+0)', 'cos(0)+[1,2,3]', '[1,2,3]+cos(0)', 'abs(x)/v', 'sqrt(4)^A', 'exp(0)-A', 'A-exp(0)', 'norm(v)+v', 'max(1,2)+v', 're(3)/v', 'kronecker(1,1)+v', 'x+v', 'y+v', '2/A',
+FUNCTION_SCALARS = ['v/i', 'A/(1+i)', 'v/(2*i)', 'v*i', 'i*A', 'v/(x+0*i)', 'A/i^2', 'v^0.5', 'A^0.5', 'A^(1/2)', 'v^(2^-1)', 'A^(3-2.5)', '[[1,2,3],[4,5,6]]^0.5', 'A^1.5', 'A^0.25', 'A^-0.5', 'v^(1/2)', '(A*A)^0.5', 'A^(0.5+0)', 'cos(0)+[1,2,3]', '[1,2,3]+cos(0)', 'abs(x)/v', 'sqrt(4)^A', 'exp(0)-A', 'A-exp(0)', 'norm(v)+v', 'max(1,2)+v', 're(3)/v', 'kronecker(1,1)+v', 'x+v', 'y+v', '2/A',
                     'trace(A)+A', 'det(A)^v', 'cos(0)*v', 'v*cos(0)', 'v/cos(0)', 'A^cos(0)', 'cos(0)+0*v', 'abs(x)^2*v', 'A*sqrt(4)', '0*cos(0)+v', 'sin(0)+v']
-FUNCTION_SCALARS_OK = {'cos(0)*v', 'v*cos(0)', 'v/cos(0)', 'A^cos(0)', 'abs(x)^2*v', 'A*sqrt(4)', '0*cos(0)+v', 'sin(0)+v'}
+FUNCTION_SCALARS_OK = {'v/i', 'A/(1+i)', 'v/(2*i)', 'v*i', 'i*A', 'v/(x+0*i)', 'A/i^2', 'cos(0)*v', 'v*cos(0)', 'v/cos(0)', 'A^cos(0)', 'abs(x)^2*v', 'A*sqrt(4)', '0*cos(0)+v', 'sin(0)+v'}
 
 
 def h_function_scalar(E, idx):
@@ -278,13 +279,16 @@ def h_function_scalar(E, idx):
     from mitxgraders.helpers.calc.math_array import MathArray
     from mitxgraders.exceptions import StudentFacingError
     expr = FUNCTION_SCALARS[idx]
-    env = {'x': -2.0, 'y': np.float64(1.5), 'v': MathArray([1.0, 2.0, 3.0]), 'A': MathArray([[1.0, 2.0], [3.0, 5.0]])}
+    env = {'x': -2.0, 'y': np.float64(1.5), 'v': MathArray([1.0, 2.0, 3.0]), 'A': MathArray([[1.0, 2.0], [3.0, 5.0]]), 'i': 1j, 'pi': math.pi}
     try:
         val, _ = evaluator(expr, env, MatrixGrader.default_functions, {}, max_array_dim=2)
     except StudentFacingError as e:
         E.check('shape-violation-is-student-facing-error', expr not in FUNCTION_SCALARS_OK)
         return type(e).__name__
     E.check('shape-violation-is-student-facing-error', expr in FUNCTION_SCALARS_OK)
+    if expr in ('v/i', 'v/(2*i)', 'A/(1+i)'):
+        want = {'v/i': np.array([1.0, 2.0, 3.0]) / 1j, 'v/(2*i)': np.array([1.0, 2.0, 3.0]) / 2j, 'A/(1+i)': np.array([[1.0, 2.0], [3.0, 5.0]]) / (1 + 1j)}[expr]
+        E.check('value-is-linear-algebra', np.allclose(np.asarray(val, dtype=complex), want, rtol=1e-12, atol=0))
     return 'value'
 
 
